@@ -1314,6 +1314,9 @@ pub fn array_from(
     let _map_fn_guard = map_fn.as_ref().and_then(|m| interp.guard_value(m));
 
     let mut elements = Vec::new();
+    // The collected (and mapped) values are held only by `elements` while later mapper and
+    // iterator calls allocate: keep them guarded; the same guard then owns the result array.
+    let guard = interp.heap.create_guard();
 
     match source {
         JsValue::Object(obj) => {
@@ -1343,6 +1346,9 @@ pub fn array_from(
                     } else {
                         elem
                     };
+                    if let JsValue::Object(o) = &mapped {
+                        guard.guard(o.cheap_clone());
+                    }
                     elements.push(mapped);
                 }
             } else {
@@ -1420,6 +1426,9 @@ pub fn array_from(
                                     } else {
                                         elem
                                     };
+                                    if let JsValue::Object(o) = &mapped {
+                                        guard.guard(o.cheap_clone());
+                                    }
                                     elements.push(mapped);
                                     i += 1;
                                 } else {
@@ -1452,13 +1461,15 @@ pub fn array_from(
                 } else {
                     elem
                 };
+                if let JsValue::Object(o) = &mapped {
+                    guard.guard(o.cheap_clone());
+                }
                 elements.push(mapped);
             }
         }
         _ => {}
     }
 
-    let guard = interp.heap.create_guard();
     let arr = interp.create_array_from(&guard, elements);
     Ok(Guarded::with_guard(JsValue::Object(arr), guard))
 }
